@@ -413,7 +413,13 @@ fn apply_parent_ready(
     received: Result<BlockId, oneshot::error::RecvError>,
     parent_block_id: &BlockId,
 ) {
-    let (new_slot, new_hash) = received.expect("ParentReady sender should not be dropped");
+    let Ok((new_slot, new_hash)) = received else {
+        // The pool dropped our waiter: it pruned the window because the window was decided
+        // (skipped or finalized past) while we were still producing, e.g. after we fell behind.
+        // Nobody votes on this block any more, so there is no parent to switch to.
+        debug!("ParentReady waiter was dropped, window is already decided");
+        return;
+    };
     let (parent_slot, parent_hash) = parent_block_id;
     if &new_hash == parent_hash {
         debug!("parent is ready, continuing with same parent");
@@ -544,10 +550,11 @@ async fn wait_for_first_slot(
     // - block reconstruction in blockstore, OR
     // - notification that a later slot was finalized.
     tokio::select! {
-        res = &mut rx => {
-            let parent = res.expect("sender dropped channel");
-            SlotReady::Ready(parent)
-        }
+        res = &mut rx => match res {
+            Ok(parent) => SlotReady::Ready(parent),
+            // the pool pruned the window before any parent became ready: it is already decided
+            Err(_) => SlotReady::Skip,
+        },
 
         res = async {
             let handle = tokio::spawn(async move {
